@@ -49,7 +49,8 @@ pub(crate) fn fake_full_tx(
             Some(result)
         }
     };
-    let bootstraps = get_bootstraps(&tx_builder.inputs);
+    let mut bootstraps = get_bootstraps(&tx_builder.inputs);
+    bootstraps.extend(get_bootstraps(&tx_builder.collateral));
     let bootstrap_keys = match bootstraps.len() {
         0 => None,
         _x => {
